@@ -1,5 +1,5 @@
 """C08 — sheet/import encoding precedence; serialised bytes decodable and lossless.
-Coq: Gen/GenEnc.v (the _readUrl ladder and the _setHref hand-over, translated
+Coq: Gen/GenEncoding.v (the _readUrl ladder and the _setHref hand-over, translated
 from their ASTs on every run), Model/Encoding.v, Proofs/EncodingFacts.v,
 Props/C08.v.
 Correspondence: (a) every row of the _readUrl table, (b) import trees of depth
@@ -16,7 +16,7 @@ import re
 from harness import core
 from harness.core import s2n
 
-GEN = ['GenEnc', 'GenLex']
+GEN = ['GenEncoding', 'GenLex']
 
 MANIFEST = dict(
     text='Machine-checked (Coq, closed under the global context): the if-chain translated from _readUrl equals the five-step precedence '
